@@ -121,7 +121,7 @@ def stepFields (fs : List String) (obs : String) : String :=
     -- the framing decision, completion flag and bytes of RawHTTPResponder for one response
     let body := if bodyHex = "-" then [] else (unhex bodyHex.toList).getD []
     let clv : Option Nat := if cl = "-" then none else cl.toNat?
-    let r : Wire.Resp := { status := st.toNat?.getD 0, head := hd = "1", cl := clv, hdrs := [], body := body, fails := fl = "1" }
+    let r : Wire.Resp := { status := st.toNat?.getD 0, head := (hd = "1" || hd = "3"), cl := clv, hdrs := [], body := body, fails := fl = "1" }
     let f := Wire.frame r
     let kind := if Wire.probeFails r then "none" else match Wire.framing r with
       | .noBody => "none" | .length n => s!"length:{n}" | .chunked => "chunked" | .untilClose => "close"
